@@ -89,6 +89,26 @@ def ensure_judge():
     return exe
 
 
+def extraction_selfcheck(judge):
+    """once per judge build: the corpus evaluated inside Coq (vm_compute) and by the extracted judge must give identical verdicts"""
+    import selfcheck
+    od = os.path.join(BUILD, 'ocaml')
+    res = os.path.join(od, 'selfcheck.json')
+    key = open(os.path.join(od, 'stamp')).read() + file_hash([os.path.join(ROOT, 'harness/corpus/selfcheck.cases')])
+    if os.path.exists(res):
+        d = json.load(open(res))
+        if d.get('key') == key:
+            return d
+    r = selfcheck.run(judge)
+    if r['differences']:
+        raise RuntimeError('extraction self-check: Coq (vm_compute) and the extracted judge disagree on %d of %d corpus cases, e.g. %r'
+                           % (len(r['differences']), r['cases'], r['differences'][0]))
+    d = {'key': key, 'cases': r['cases'], 'accepted': r['ok_true'], 'rejected': r['ok_false'], 'differences': 0}
+    json.dump(d, open(res, 'w'))
+    log('[selfcheck] extraction self-check: %d corpus cases, Coq vm_compute = extracted judge' % r['cases'])
+    return d
+
+
 def build_driver(name, src, flags, compiler=None, extra_srcs=()):
     """compile a driver against /repo's current working tree; cached on (tree hash, source, flags)"""
     dd = os.path.join(BUILD, 'drv')
@@ -299,6 +319,7 @@ def run_check(prop, tier, seed, only_stream=None):
 
     # 3./4. build + correspond
     judge = ensure_judge()
+    sc = extraction_selfcheck(judge)
     findings = load_findings()
     unknown = []
     plans.build_all([d for st in plan.get('streams', []) if tier in st['runs'] and (not only_stream or st['name'] == only_stream) for d in (st['driver'], st.get('driver2')) if d])
@@ -364,6 +385,8 @@ def run_check(prop, tier, seed, only_stream=None):
         'streams': ev_streams, 'mismatches_total': total['mismatches'],
         'known_findings_hit': {k: v[1] for k, v in known_hits.items()},
         'exhaustive': bool(ev_streams) and all(s.get('exhaustive') for s in ev_streams),
+        'extraction_selfcheck': 'corpus of %d cases (%d accepted, %d rejected by the model) evaluated by Coq vm_compute and by the extracted judge: identical verdicts'
+                                % (sc['cases'], sc['accepted'], sc['rejected']),
     }
     if proof:
         cov.update({'obligations': len(proof['theorems']), 'discharged': len(proof['theorems']) if proof['ok'] else 0,
